@@ -92,7 +92,8 @@ PROPS.update({
     "C12": {"module": "lfo", "mc": _LFO_MC, "traces": [("lfo", "shapes", QT), _LFO_SWEEP]},
 })
 
-_ADSR_MC = [("adsr", "MC_Adsr", "MC_Adsr.cfg", QT), ("adsr-live", "MC_Adsr", "MC_Adsr_live.cfg", QT)]
+_ADSR_MC = [("adsr", "MC_Adsr", "MC_Adsr.cfg", QT), ("adsr-live", "MC_Adsr", "MC_Adsr_live.cfg", QT),
+            ("adsr-big", "MC_Adsr", "MC_Adsr_big.cfg", T), ("adsr-live-big", "MC_Adsr", "MC_Adsr_live_big.cfg", T)]
 _ADSR_TR = [("adsr", "random", QT), ("adsr", "durations", QT), ("adsr", "cells", QT)]
 PROPS.update({
     "C01": {"module": "adsr", "mc": _ADSR_MC, "traces": _ADSR_TR,
@@ -139,7 +140,8 @@ PROPS.update({
     },
     "C17": {
         "module": "all",
-        "mc": [("adsr-live", "MC_Adsr", "MC_Adsr_live.cfg", QT), ("adsr", "MC_Adsr", "MC_Adsr.cfg", T)],
+        "mc": [("adsr-live", "MC_Adsr", "MC_Adsr_live.cfg", QT), ("adsr-live-big", "MC_Adsr", "MC_Adsr_live_big.cfg", T),
+               ("adsr", "MC_Adsr", "MC_Adsr.cfg", T)],
         "traces": [("adsr", "extreme", QT), ("adsr", "durations", QT), ("lfo", "extreme", QT), ("glide", "extreme", QT),
                    ("ribbon", "extreme", QT), ("quant", "hyst", QT), ("quant", "sweep", QT), ("midi", "framing", QT),
                    ("midi", "short", QT), ("params", "floats", QT), ("params", "ints", QT), ("glide", "sched", QT),
